@@ -679,3 +679,35 @@ func sortedKeys[V any](m map[string]V) []string {
 	}
 	return out
 }
+
+// Rebind returns a copy of the case's environment in which every supplied
+// variable has a freshly drawn value of its type (same program text, other
+// bindings): what a second client of the same script would send.
+func Rebind(t *rapid.T, c *Case) *Env {
+	e := &Env{Vars: map[string]string{}, Balances: c.Env.Balances, Meta: c.Env.Meta, ReqMeta: c.Env.ReqMeta}
+	for _, v := range c.Prog.Vars {
+		if v.Origin != nil {
+			continue
+		}
+		old := c.Env.Vars[v.Name]
+		switch v.Type {
+		case TAccount:
+			e.Vars[v.Name] = rapid.SampledFrom(accPool).Draw(t, "rebindAcc")
+		case TAsset:
+			e.Vars[v.Name] = rapid.SampledFrom(assetPool).Draw(t, "rebindAsset")
+		case TNumber:
+			e.Vars[v.Name] = fmt.Sprint(rapid.IntRange(0, 1000).Draw(t, "rebindNum"))
+		case TString:
+			e.Vars[v.Name] = rapid.StringMatching(`[a-z]{0,6}`).Draw(t, "rebindStr")
+		case TMonetary:
+			asset := rapid.SampledFrom(assetPool).Draw(t, "rebindMonAsset")
+			if parts := strings.SplitN(old, " ", 2); len(parts) == 2 && rapid.Bool().Draw(t, "keepAsset") {
+				asset = parts[0]
+			}
+			e.Vars[v.Name] = fmt.Sprintf("%s %d", asset, rapid.IntRange(0, 300).Draw(t, "rebindAmt"))
+		case TPortion:
+			e.Vars[v.Name] = old
+		}
+	}
+	return e
+}
